@@ -155,3 +155,30 @@ pub fn bodies<'l>(
     }
     Ok(out)
 }
+
+/// Is there *any* partition of the fragments that renders to `bodies`
+/// (no fitting constraints)? When there is none, the output is not a
+/// rendering of the in-context fragments at all, which is the business of
+/// C01/C05/C11/C12, not of the line-breaking properties.
+pub fn renders_somehow(fr: &Frags<'_>, bodies: &[&str]) -> bool {
+    let n = fr.len();
+    let m = bodies.len();
+    if n == 0 {
+        return m == 1 && bodies[0].is_empty();
+    }
+    let mut reach = vec![vec![false; n + 1]; m + 1];
+    reach[0][0] = true;
+    for k in 0..m {
+        for i in 0..n {
+            if !reach[k][i] {
+                continue;
+            }
+            for j in i + 1..=n {
+                if fr.renders(i, j, bodies[k]) {
+                    reach[k + 1][j] = true;
+                }
+            }
+        }
+    }
+    reach[m][n]
+}
